@@ -313,6 +313,19 @@ func genM16(t *rapid.T, label string) M16 {
 	if kind == 1 { // affine: last row 0 0 0 1
 		m[12], m[13], m[14], m[15] = 0, 0, 0, 1
 	}
+	// one matrix in five: entries of one common magnitude 1e-6..1e6 (a model in micrometres or in
+	// kilometres): the determinant is then 1e-24..1e24 times that of a unit-sized matrix while the
+	// matrix is as well conditioned as before - an absolute cut-off on the determinant shows here
+	if rapid.Uint64().Draw(t, label+".uniformScale")%5 == 0 {
+		k := math.Pow(10, float64(rapid.IntRange(-6, 6).Draw(t, label+".scale10")))
+		for i := range m {
+			u := float64(rapid.IntRange(-8, 8).Draw(t, fmt.Sprintf("%s.u[%d]", label, i))) / 4
+			m[i] = u * k
+		}
+		if rapid.Bool().Draw(t, label+".affineScaled") { // scale k with a translation column
+			m = M16{k, 0, 0, m[3], 0, k, 0, m[7], 0, 0, k, m[11], 0, 0, 0, 1}
+		}
+	}
 	return m
 }
 
